@@ -196,3 +196,21 @@ func waitFracCache(dir string) bool {
 	}
 	return false
 }
+
+// moveToRecentPast maps the corpus' timestamps monotonically (order and ties kept) to 11 min .. 22 h before the present,
+// stretched over 25..1300 minutes: only then does sealing build the minute-level occupancy map (and only for documents
+// older than 10 minutes), which the sealed and reloaded forms use for pruning. Returns a description for the case record.
+func moveToRecentPast(r *h.Rng, corp *gen.Corpus) string {
+	now := uint64(time.Now().UnixMilli())
+	spanMin := uint64(h.Pick(r, []int{25, 90, 600, 1300}))
+	lo, hi := corp.Docs[0].ID.MID, corp.Docs[0].ID.MID
+	for _, d := range corp.Docs {
+		lo, hi = min(lo, d.ID.MID), max(hi, d.ID.MID)
+	}
+	base := now - (spanMin+11)*60000
+	for _, d := range corp.Docs {
+		d.ID.MID = base + (d.ID.MID-lo)*spanMin*60000/max(hi-lo, 1)
+	}
+	corp.MinMID, corp.MaxMID = base, base+spanMin*60000
+	return fmt.Sprintf(" recent(now=%d span=%dmin)", now, spanMin)
+}
